@@ -181,61 +181,73 @@ def gen_thread(rng, n_ops, pure=False, faults=True, shutdown_ok=True):
       ops.append({'op': 'shutdown'})
       shut = True
       continue
-    k = rng.random()
     env = gen_env(rng, p_fault)
-    if k < 0.22:
+    menu = [('expr', 20), ('lazy', 12), ('raise', 7), ('exc_value', 0.4), ('mk_gen', 7), ('mk_queue', 4)]
+    if handles:
+      menu += [('chain', 20), ('handle_leaf', 5)]
+      if any(sh in ('tup', 'fn') for _, sh in handles):
+        menu.append(('iter_plain', 3))
+    if iters:
+      menu.append(('next', 15))
+    if queues:
+      menu.append(('qop', 8))
+    if not pure:
+      menu.append(('call', 5))
+      if faults:
+        menu.append(('bgcall', 1.5))
+    what = rng.choices([m for m, _ in menu], [w for _, w in menu])[0]
+    if what == 'expr':
       ops.append(dict(op='get', prog=P_expr(g.root(rng.randrange(1, 5))), **env))
-    elif k < 0.34:
+    elif what == 'lazy':
       e, shape = lazy_root(rng, g, pure)
       ops.append(dict(op='get', prog=P_expr(e), **env))
       if not env:
         handles.append((len(ops) - 1, shape))
-    elif k < 0.52 and handles:
+    elif what == 'chain':
       h, shape = rng.choice(handles)
       ops.append(dict(op='chain', h=h, links=handle_links(rng, shape), **env))
-    elif k < 0.60:
+    elif what == 'raise':
       prog = {'p': 'raise', 'x': X(rng.choice(KINDS), rng.choice(['boom', 'bad input', '']),
                                     4 if rng.random() < 0.03 else rng.choice([0, 0, 0, 2, 7]))}
       ops.append(dict(op='get', prog=prog, **env))
-    elif k < 0.61:
-      if rng.random() < 0.3:
-        ops.append(dict(op='get', prog={'p': 'exc_value', 'x': X(rng.choice(KINDS), 'as a value')}, **env))
-    elif k < 0.68:
+    elif what == 'exc_value':
+      ops.append(dict(op='get', prog={'p': 'exc_value', 'x': X(rng.choice(KINDS), 'as a value')}, **env))
+    elif what == 'mk_gen':
       ops.append(dict(op='get', prog={'p': 'mk_gen', 'items': gen_values(rng), 'fin': gen_fin(rng)}))
       ops.append(dict(op='get', prog={'p': 'iter_of', 'h': len(ops) - 1}))
       iters.append(len(ops) - 1)
-    elif k < 0.72 and handles:
-      # iter() of a plain remote object (tuple / record / callable)
+    elif what == 'iter_plain':
+      # iter() of a plain remote object (tuple: a fresh iterator each time; callable: TypeError)
+      h, shape = rng.choice([x for x in handles if x[1] in ('tup', 'fn')])
+      ops.append(dict(op='get', prog={'p': 'iter_of', 'h': h}, **env))
+      if not env and shape == 'tup':
+        iters.append(len(ops) - 1)
+    elif what == 'handle_leaf':
+      # the handle itself as a leaf of a new expression (the server dereferences it)
       h, shape = rng.choice(handles)
-      if shape in ('tup', 'fn'):
-        ops.append(dict(op='get', prog={'p': 'iter_of', 'h': h}, **env))
-        if not env and shape == 'tup':
-          iters.append(len(ops) - 1)
-      else:
-        # the handle itself as a leaf of a new expression (the server dereferences it)
-        leaf = const({'res': h})
-        e = rng.choice([call('ident', [leaf]), call('pair', [leaf, const(V_int(1))], cache=rng.random() < 0.3),
-                        getitem_(leaf, rng.choice([V_int(0), V_str('x')])), getattr_(leaf, 'x'),
-                        call(leaf, [const(V_int(2)), const(V_int(3))])])
-        ops.append(dict(op='get', prog=P_expr(e), **env))
-    elif k < 0.86 and iters:
+      leaf = const({'res': h})
+      e = rng.choice([call('ident', [leaf]), call('pair', [leaf, const(V_int(1))], cache=rng.random() < 0.3),
+                      getitem_(leaf, rng.choice([V_int(0), V_str('x')])), getattr_(leaf, 'x'),
+                      call(leaf, [const(V_int(2)), const(V_int(3))])])
+      ops.append(dict(op='get', prog=P_expr(e), **env))
+    elif what == 'next':
       ops.append(dict(op='get', prog={'p': 'next', 'h': rng.choice(iters)}, **env))
-    elif k < 0.90:
+    elif what == 'mk_queue':
       ops.append(dict(op='get', prog={'p': 'mk_queue', 'buf': gen_values(rng), 'fin': gen_fin(rng)}))
       queues.append(len(ops) - 1)
-    elif k < 0.97 and queues:
+    elif what == 'qop':
       q = rng.choice(queues)
       fails = 'fail' in ops[q]['prog']['fin']
-      which = 'qget' if fails or rng.random() < 0.7 else 'qbatch'     # (get_batch on a failed queue: C15/F7)
+      which = 'qget' if fails or rng.random() < 0.6 else 'qbatch'     # (get_batch on a failed queue: C15/F7)
       ops.append(dict(op='get', prog={'p': which, 'h': q}, **env))
-    elif k < 0.985 and not pure:
+    elif what == 'call':
       flags = rng.choice([{'return_exception': True, 'compress': True},
                           {'return_exception': True, 'compress': False},
                           {'return_exception': False, 'compress': False},
                           {'return_exception': True, 'compress': True, 'return_none': True}])
       e = rng.choice([lazy_root(rng, g)[0], g.root(2), g.root(3)])
       ops.append(dict(op='call', prog=P_expr(e), flags=flags))
-    elif not pure and faults:
+    elif what == 'bgcall':
       ops.append(dict(op='call', prog=P_expr(call('counter', [])),
                       flags={'return_exception': True, 'compress': True, 'return_immediately': True}))
       ops.append({'op': 'bg'})
